@@ -7,7 +7,7 @@
 EXTENDS SdoBlock, Json, IOUtils
 
 KInit(t) == [op |-> "none", bd |-> BdIdle, bu |-> BuIdle, acc |-> <<>>, committed |-> NoVal,
-             dist |-> FALSE, ci |-> 0, busy |-> FALSE, srvdead |-> FALSE, noend |-> FALSE]
+             dist |-> FALSE, ci |-> 0, busy |-> FALSE, srvdead |-> FALSE, noend |-> FALSE, corrupt |-> FALSE]
 KShow(st) == [op |-> st.op, bd |-> st.bd, bu |-> st.bu, acclen |-> Len(st.acc), dist |-> st.dist,
               busy |-> st.busy, srvdead |-> st.srvdead,
               committed |-> IF st.committed = NoVal THEN -1 ELSE Len(st.committed)]
@@ -117,7 +117,9 @@ UlCq(st, e) ==
 UlSseg(st, e, value) ==
     LET bu == st.bu IN
     IF ~BuServerSegLegal(bu, value, e.r) THEN Bad(st, "HARNESS: reference server segment malformed")
-    ELSE Good([st EXCEPT !.bu = BuOnSeg(bu, e.r, e.how), !.dist = st.dist \/ e.how # "ok"])
+    ELSE Good([st EXCEPT !.bu = BuOnSeg(bu, e.r, e.how), !.dist = st.dist \/ e.how # "ok",
+                         \* content damage (as opposed to loss, which the sequence numbers reveal)
+                         !.corrupt = st.corrupt \/ e.how \notin {"ok", "lost"}])
 
 UlSend(st, e, value) ==
     LET bu == st.bu
@@ -125,6 +127,7 @@ UlSend(st, e, value) ==
     IN IF bu.ph # "end" THEN Bad(st, "HARNESS: end frame in the wrong phase")
        ELSE IF e.r # want THEN Bad(st, "HARNESS: reference server end frame malformed")
        ELSE Good([st EXCEPT !.bu = [bu EXCEPT !.ph = "endsent"], !.dist = st.dist \/ e.how # "ok",
+                            !.corrupt = st.corrupt \/ e.how \notin {"ok", "lost"},
                             \* the delivered frame is not an end-of-block-upload frame at all
                             !.noend = (e.how = "wrongend")])
 
@@ -139,6 +142,8 @@ OnRet(st, e, data, value) ==
            ELSE Bad(st, "undisturbed block upload did not return exactly the server's value / did not close the transfer")
     ELSE IF st.bu.crcOn /\ e.data # value
       THEN Bad(st, "block upload with CRC returned data that differs from the server's value")
+    ELSE IF ~st.corrupt /\ e.data # value
+      THEN Bad(st, "block upload returned data that differs from the server's value although segments were only lost, not damaged")
     ELSE Good([st EXCEPT !.busy = FALSE])
 
 OnRaise(st, e) ==
